@@ -16,7 +16,8 @@
 EXTENDS Integers, Sequences, TLC
 
 CONSTANTS T,        \* buffer threshold (8196)
-          Dev       \* deviations: "copydone_single_recv", "copyin_keeps_da"
+          Dev,      \* deviations: "copydone_single_recv", "copyin_keeps_da", "single_write"
+          Window    \* bytes the socket of a peer that is not reading takes in one write
 
 Sz(m) == m[2]
 
@@ -44,15 +45,22 @@ Recv(rest, chunk, blen, da, copy) ==
 
 ChunkBytes(ch) == LET RECURSIVE Sum(_) Sum(s) == IF s = <<>> THEN 0 ELSE Sz(Head(s)) + Sum(Tail(s)) IN Sum(ch)
 
+\* ---- write_all_flush: what recv() returned is written to the client - all of it, however often the socket has to be
+\* written to while the client is slow to read.  Deviation single_write: one write() only; what does not fit the peer's
+\* window is dropped and the loop goes on as if it had been sent.
+RECURSIVE Fit(_, _)
+Fit(ch, room) == IF ch = <<>> \/ Sz(Head(ch)) > room THEN <<>> ELSE <<Head(ch)>> \o Fit(Tail(ch), room - Sz(Head(ch)))
+Written(ch) == IF "single_write" \in Dev THEN Fit(ch, Window) ELSE ch
+
 \* ---- send_and_receive_loop: recv / write to the client until !data_available.
 \* out: messages written to the client; lens: byte length of every recv() return
 RECURSIVE Loop(_, _, _, _, _)
 Loop(rest, out, lens, da, copy) ==
   LET r == Recv(rest, <<>>, 0, da, copy) IN
-  IF r.blocked THEN [rest |-> r.rest, out |-> out \o r.chunk, lens |-> Append(lens, ChunkBytes(r.chunk)), da |-> r.da,
+  IF r.blocked THEN [rest |-> r.rest, out |-> out \o Written(r.chunk), lens |-> Append(lens, ChunkBytes(r.chunk)), da |-> r.da,
                      copy |-> r.copy, blocked |-> TRUE]
-  ELSE IF r.da THEN Loop(r.rest, out \o r.chunk, Append(lens, ChunkBytes(r.chunk)), r.da, r.copy)
-  ELSE [rest |-> r.rest, out |-> out \o r.chunk, lens |-> Append(lens, ChunkBytes(r.chunk)), da |-> r.da,
+  ELSE IF r.da THEN Loop(r.rest, out \o Written(r.chunk), Append(lens, ChunkBytes(r.chunk)), r.da, r.copy)
+  ELSE [rest |-> r.rest, out |-> out \o Written(r.chunk), lens |-> Append(lens, ChunkBytes(r.chunk)), da |-> r.da,
         copy |-> r.copy, blocked |-> FALSE]
 
 \* ---- One whole request.  After the first loop the reply may have stopped at CopyInResponse
@@ -65,7 +73,7 @@ Relay(rest, out, lens, da, copy) ==
   ELSE IF a.copy /\ a.rest # <<>> THEN
          IF "copydone_single_recv" \in Dev
          THEN LET b == Recv(a.rest, <<>>, 0, a.da, a.copy) IN
-              [rest |-> b.rest, out |-> a.out \o b.chunk, lens |-> Append(a.lens, ChunkBytes(b.chunk)),
+              [rest |-> b.rest, out |-> a.out \o Written(b.chunk), lens |-> Append(a.lens, ChunkBytes(b.chunk)),
                da |-> b.da, copy |-> b.copy, blocked |-> b.blocked]
          ELSE Relay(a.rest, a.out, a.lens, a.da, a.copy)      \* CopyDone sent: keep reading
        ELSE a
